@@ -9,38 +9,70 @@ import (
 )
 
 func (e *kvElection) watchLoop(ctx context.Context) {
-	watcher, err := e.kv.Watch(e.key)
-	if err != nil {
-		log := e.getLogger()
-		log.Error("watch_failed",
-			append(e.logWithContext(ctx),
-				zap.Error(err),
-				zap.String("key", e.key),
-			)...,
-		)
-		return
-	}
-	defer watcher.Stop()
-
-	log := e.getLogger()
-	log.Debug("watch_started",
-		append(e.logWithContext(ctx),
-			zap.String("key", e.key),
-		)...,
-	)
-
 	checkTicker := time.NewTicker(500 * time.Millisecond)
 	defer checkTicker.Stop()
 
+	// A follower without a watcher and without the periodic check would never
+	// take part in an election again. A failed Watch or a closed update channel
+	// is therefore not the end of the loop: the periodic check keeps running and
+	// the watch is re-established on the next tick.
 	for {
+		if ctx.Err() != nil {
+			return
+		}
+
+		watcher, err := e.kv.Watch(e.key)
+		if err != nil {
+			log := e.getLogger()
+			log.Error("watch_failed",
+				append(e.logWithContext(ctx),
+					zap.Error(err),
+					zap.String("key", e.key),
+				)...,
+			)
+		} else {
+			log := e.getLogger()
+			log.Debug("watch_started",
+				append(e.logWithContext(ctx),
+					zap.String("key", e.key),
+				)...,
+			)
+			closed := e.consumeWatch(ctx, watcher, checkTicker)
+			if !closed {
+				watcher.Stop()
+				return
+			}
+			// The update channel was closed from the other side: the watcher is
+			// already finished, there is nothing left to stop.
+		}
+
+		// Wait for the next periodic tick before trying to watch again.
 		select {
 		case <-ctx.Done():
 			return
+		case <-checkTicker.C:
+			if ctx.Err() != nil {
+				return
+			}
+			if !e.IsLeader() {
+				e.checkKeyAndReelect(ctx)
+			}
+		}
+	}
+}
+
+// consumeWatch handles watch events and periodic checks until the context ends
+// (returns false) or the watcher's update channel is closed (returns true).
+func (e *kvElection) consumeWatch(ctx context.Context, watcher Watcher, checkTicker *time.Ticker) bool {
+	for {
+		select {
+		case <-ctx.Done():
+			return false
 		case entry, ok := <-watcher.Updates():
 			// select picks at random among ready cases: once the election is
 			// stopped no event may start new store operations.
 			if ctx.Err() != nil {
-				return
+				return false
 			}
 			if !ok {
 				log := e.getLogger()
@@ -52,12 +84,12 @@ func (e *kvElection) watchLoop(ctx context.Context) {
 				if !e.IsLeader() {
 					go e.checkKeyAndReelect(ctx)
 				}
-				return
+				return true
 			}
 			e.handleWatchEvent(entry)
 		case <-checkTicker.C:
 			if ctx.Err() != nil {
-				return
+				return false
 			}
 			// Periodic check: if we're a follower and key doesn't exist, trigger re-election
 			// This handles cases where NATS watchers don't send deletion events
